@@ -20,7 +20,7 @@ import warnings
 
 import numpy as np
 
-from .. import gen, xu, zoo
+from .. import failpoint, gen, xu, zoo
 
 LEVEL = "exploration"
 RULE = (
@@ -39,13 +39,13 @@ CROSSC = ("MCA", "CCA", "CPCCA", "ComplexMCA")
 ROT = ("EOFRotator", "MCARotator", "CPCCARotator")
 MULTI = ("multi.CCA",)
 CLASSES = SINGLE + CROSSC + ROT + MULTI
-OPS = ("fit", "fit", "fit", "transform", "inverse", "query", "compute", "serialize", "rotate", "bootstrap", "badfit", "transform_other")
+OPS = ("fit", "fit", "fit", "transform", "inverse", "query", "compute", "serialize", "rotate", "bootstrap", "badfit", "transform_other", "intfit")
 
 
 def required(tier):
     return {
-        "mon": ["answers_compared", "inputs_immutability_checked", "refits"],
-        "cover": [f"cls:{c}" for c in CLASSES] + ["cfg:raw_weights", "op:rotate", "op:bootstrap", "op:badfit", "op:serialize", "op:compute", "op:transform_other"],
+        "mon": ["answers_compared", "inputs_immutability_checked", "refits", "failpoint:injected", "failpoint:refit_after_fault"],
+        "cover": [f"cls:{c}" for c in CLASSES] + ["cfg:raw_weights", "op:rotate", "op:bootstrap", "op:badfit", "op:serialize", "op:compute", "op:transform_other", "op:intfit"],
     }
 
 
@@ -62,6 +62,19 @@ def cases(tier, seed):
         # configuration in which the preprocessing chain starts with the user's own object
         # (no centring / standardising copy in front of the weights): the hostile case for input immutability
         out.append(dict(cls=cls, cfg="raw_weights", ops=[["fit", 0], ["transform", 0], ["fit", 1], ["fit", 3], ["transform", 3]], dseed=9))
+        # crash points: a fit interrupted at a chosen statement inside the package (an exception raised there by a
+        # source-free failpoint), followed by a successful fit on the same object
+        nfp = 12 if tier == "quick" else 60
+        for q in range(nfp):
+            frac = (q + 0.5) / nfp
+            # the data of the interrupted fit always differs in shape from the data of the fit that follows
+            if q % 3 == 0:
+                ops = [["intfit", 2, frac], ["fit", 0], ["transform", 0]]
+            elif q % 3 == 1:
+                ops = [["fit", 0], ["intfit", 2, frac], ["fit", 1], ["inverse", 0]]
+            else:
+                ops = [["fit", 2], ["intfit", 3, frac], ["fit", 0], ["query", 0]]
+            out.append(dict(cls=cls, ops=ops, dseed=20 + q % 5, cfg="raw_weights" if q % 4 == 3 else "default"))
     nrand = 120 if tier == "quick" else 3000
     maxlen = 8 if tier == "quick" else 20
     for j in range(nrand):
@@ -71,6 +84,8 @@ def cases(tier, seed):
         ops = [["fit", int(rng.integers(0, 4))]]
         for _ in range(L - 1):
             ops.append([str(rng.choice(OPS)), int(rng.integers(0, 4))])
+            if ops[-1][0] == "intfit":
+                ops[-1].append(float(np.round(rng.random(), 4)))
         out.append(dict(cls=cls, ops=ops, dseed=int(rng.integers(0, 1000)), cfg=str(rng.choice(["default", "default", "raw_weights"]))))
     return out
 
@@ -300,8 +315,11 @@ def run_case(case, obs):
         current = None  # index of the last successful fit, None = unknown state
         facade = None
         hist = []
-        for step, (op, j) in enumerate(case["ops"]):
-            hist.append(f"{op}{j}")
+        npoints = {}
+        pending_fault = None
+        for step, o in enumerate(case["ops"]):
+            op, j = o[0], o[1]
+            hist.append(f"{op}{j}" + (f"@{o[2]}" if len(o) > 2 else ""))
             obs.cell(f"op:{op}")
             tags = {"op": op, "history_has_refit": nfits >= 1, "step_kind": op}
             data = pool[j]
@@ -323,6 +341,47 @@ def run_case(case, obs):
                     nfits += 1
                     if nfits >= 2:
                         obs.count("refits")
+                    if pending_fault:
+                        obs.count("failpoint:refit_after_fault")
+                        tags = dict(tags, after_injected_fault=True)
+                        obs.note("last_fault", pending_fault)
+                        pending_fault = None
+                elif op == "intfit":
+                    ref_for(j)  # the data is fittable (and the reference is memoised outside the failpoint)
+                    if j not in npoints:
+                        # number of statements a complete fit of this class on this data executes inside the package
+                        probe = zoo.make(base, **kw)
+                        probe_rot = zoo.make(cls, **_rot_kw(case)) if cls in ROT else None
+
+                        def _full(m=probe, r=probe_rot):
+                            _do_fit(m, base, data, wts)
+                            if r is not None:
+                                r.fit(m)
+
+                        npoints[j] = failpoint.run(_full, -1, trace=True)["sites"]
+                    # stratified by source file: the few statements of the numerical kernels are reached as often as
+                    # the many of the preprocessing chain
+                    sites = npoints[j]
+                    files = sorted(set(sites))
+                    fsel = files[int(float(o[2]) * len(files)) % len(files)]
+                    idxs = [q for q, f in enumerate(sites) if f == fsel]
+                    k = 1 + idxs[int(((float(o[2]) * 7919.0) % 1.0) * len(idxs))]
+
+                    def _aged():
+                        _do_fit(model, base, data, wts)
+                        if rot is not None:
+                            rot.fit(model)
+
+                    res = failpoint.run(_aged, k)
+                    if res["raised"]:
+                        obs.count("failpoint:injected")
+                        obs.cell("failpoint_file:" + str(res["where"]).split(":")[0])
+                        obs.info.setdefault("failpoints", []).append(res["where"])
+                        pending_fault = res["where"]
+                    else:
+                        obs.count("failpoint:not_reached")
+                    current = None
+                    continue
                 elif op == "badfit":
                     bad = _bad(data)
                     try:
@@ -405,7 +464,7 @@ def run_case(case, obs):
             got = _Q(fa, pool[current])
             obs.note("history", hist)
             _cmp(obs, f"after_{op}", got, ref_for(current), tags)
-    obs.nontrivial = nfits >= 2 or any(o in ("rotate", "bootstrap") for o, _ in case["ops"])
+    obs.nontrivial = nfits >= 2 or any(o[0] in ("rotate", "bootstrap") for o in case["ops"])
     # fresh-vs-fresh: the reference itself must be reproducible, otherwise the comparison above is meaningless
     if ref_cache:
         i = sorted(ref_cache)[0]
